@@ -26,6 +26,7 @@ type Expr interface{ exprString() string }
 
 type (
 	EInt    struct{ V string }
+	EReal   struct{ V string }
 	EStr    struct{ V string }
 	EBool   struct{ V bool }
 	ENil    struct{}
@@ -64,6 +65,7 @@ type (
 )
 
 func (e EInt) exprString() string   { return e.V }
+func (e EReal) exprString() string  { return e.V }
 func (e EStr) exprString() string   { return fmt.Sprintf("%q", e.V) }
 func (e EBool) exprString() string  { return fmt.Sprint(e.V) }
 func (e ENil) exprString() string   { return "nil" }
@@ -119,6 +121,15 @@ func lexSpec(s string) ([]stoken, error) {
 			j := i
 			for j < len(s) && (unicode.IsDigit(rune(s[j])) || s[j] == '_') {
 				j++
+			}
+			if j+1 < len(s) && s[j] == '.' && unicode.IsDigit(rune(s[j+1])) {
+				j++
+				for j < len(s) && unicode.IsDigit(rune(s[j])) {
+					j++
+				}
+				toks = append(toks, stoken{"real", s[i:j]})
+				i = j
+				break
 			}
 			toks = append(toks, stoken{"int", strings.ReplaceAll(s[i:j], "_", "")})
 			i = j
@@ -479,6 +490,8 @@ func (p *specParser) parsePrimary() (Expr, error) {
 	switch t.kind {
 	case "int":
 		return EInt{t.text}, nil
+	case "real":
+		return EReal{t.text}, nil
 	case "str":
 		return EStr{t.text}, nil
 	case "id":
@@ -624,6 +637,11 @@ func ParseContractText(path, text string) ([]*Contract, error) {
 			kind, r3 := splitWord(r2)
 			cl.Loop = ref
 			cl.Kind = kind
+			if kind == "continues_after" {
+				cl.Args = strings.Fields(strings.ReplaceAll(r3, ",", " "))
+				cur.Clauses = append(cur.Clauses, cl)
+				continue
+			}
 			r3 = parseLabel(r3, &cl)
 			e, err := ParseExpr(r3)
 			if err != nil {
